@@ -59,3 +59,316 @@ Definition row_ok (r : zrow) : bool :=
 Lemma table_ranges_exact :
   length int_formats_Z = length int_formats_raw /\ forallb row_ok int_formats_Z = true.
 Proof. split; vm_compute; reflexivity. Qed.
+
+(* ======================================================================
+   Property theorems on the integer-level model (Algo/IntSelectZ.v).
+   All bounds / defaults / formats; the only finite thing is the table.
+   ====================================================================== *)
+
+(* ---- facts about the regenerated table, each a forallb over its rows ---- *)
+
+Definition nz_name (s : string) : bool :=
+  String.eqb s "::std::num::NonZeroU8" || String.eqb s "::std::num::NonZeroU16"
+  || String.eqb s "::std::num::NonZeroU32" || String.eqb s "::std::num::NonZeroU64".
+
+(* a row whose upper limit (as a double) lies in [2^63, 2^64) is the int64 row
+   with limits (-2^63, 2^63); no row starts at 1; no row's plain type is a
+   NonZero type *)
+Definition row_ok2 (r : zrow) : bool :=
+  (if (2^63 <=? z_hi r) && (z_hi r <=? 2^64 - 1)
+   then (z_lo r =? - 2^63) && (z_hi r =? 2^63) else true)
+  && negb (z_lo r =? 1) && negb (nz_name (z_ty r)) && nz_name (z_nz r).
+
+Lemma table_rows_ok2 : forallb row_ok2 int_formats_Z = true.
+Proof. vm_compute; reflexivity. Qed.
+
+Lemma rows_ok r : In r int_formats_Z -> row_ok r = true /\ row_ok2 r = true.
+Proof.
+  intros H. split.
+  - exact (proj1 (forallb_forall _ _) (proj2 table_ranges_exact) r H).
+  - exact (proj1 (forallb_forall _ _) table_rows_ok2 r H).
+Qed.
+
+Record row_facts (r : zrow) (lo hi nhi : Z) : Prop := {
+  rf_fmt : fmt_type (z_fmt r) = Some (z_ty r);
+  rf_ty : ty_range (z_ty r) = Some (lo, hi);
+  rf_nz : ty_range (z_nz r) = Some (1, nhi);
+  rf_lo : z_lo r = lo;
+  rf_hi : z_hi r = hi \/ (z_hi r = hi + 1 /\ 2^63 <= z_hi r);
+  rf_nhi : hi <= nhi;
+  rf_hi0 : 0 <= hi;
+  rf_64 : 2^63 <= z_hi r <= 2^64 - 1 -> z_lo r = - 2^63 /\ z_hi r = 2^63;
+  rf_lo1 : z_lo r <> 1;
+  rf_tynz : nz_name (z_ty r) = false;
+  rf_nznz : nz_name (z_nz r) = true
+}.
+
+Lemma row_facts_of r : In r int_formats_Z -> exists lo hi nhi, row_facts r lo hi nhi.
+Proof.
+  intros Hin. destruct (rows_ok r Hin) as [H1 H2].
+  unfold row_ok in H1. unfold row_ok2 in H2.
+  destruct (fmt_type (z_fmt r)) as [t|] eqn:Ef; [|discriminate H1].
+  destruct (ty_range (z_ty r)) as [[lo hi]|] eqn:Et; [|discriminate H1].
+  destruct (ty_range (z_nz r)) as [[nlo nhi]|] eqn:En; [|discriminate H1].
+  repeat rewrite andb_true_iff in H1. repeat rewrite andb_true_iff in H2.
+  destruct H1 as [[[[[Ht Hlo] Hhi] Hnlo] Hnhi] Hhi0].
+  destruct H2 as [[[H64 Hl1] Htn] Hnn].
+  apply String.eqb_eq in Ht. apply Z.eqb_eq in Hlo. apply Z.eqb_eq in Hnlo.
+  apply Z.leb_le in Hnhi. apply Z.leb_le in Hhi0.
+  apply negb_true_iff in Hl1. apply Z.eqb_neq in Hl1. apply negb_true_iff in Htn.
+  exists lo, hi, nhi. subst t nlo. constructor; auto.
+  - apply orb_true_iff in Hhi. destruct Hhi as [Hhi|Hhi].
+    + left. apply Z.eqb_eq in Hhi. exact Hhi.
+    + right. apply andb_true_iff in Hhi. destruct Hhi as [Ha Hb].
+      apply Z.eqb_eq in Ha. apply Z.leb_le in Hb. split; assumption.
+  - intros [Ha Hb].
+    destruct ((2^63 <=? z_hi r) && (z_hi r <=? 2^64 - 1)) eqn:E.
+    + apply andb_true_iff in H64. destruct H64 as [Hx Hy].
+      apply Z.eqb_eq in Hx. apply Z.eqb_eq in Hy. split; assumption.
+    + apply andb_false_iff in E. destruct E as [E|E]; apply Z.leb_gt in E; lia.
+Qed.
+
+(* ---- find / find_map ---- *)
+
+Lemma find_map_some {A B} (f : A -> option B) l y :
+  find_map f l = Some y -> exists x, In x l /\ f x = Some y.
+Proof.
+  induction l as [|a l IH]; cbn [find_map]; intros H; [discriminate H|].
+  destruct (f a) as [b|] eqn:E.
+  - exists a. split; [left; reflexivity|]. rewrite E. exact H.
+  - destruct (IH H) as [x [Hx Hf]]. exists x. split; [right; exact Hx | exact Hf].
+Qed.
+
+Lemma find_row_some f r :
+  find (fun r => String.eqb (z_fmt r) f) int_formats_Z = Some r -> In r int_formats_Z /\ z_fmt r = f.
+Proof.
+  intros H. apply find_some in H. destruct H as [Hin He]. apply String.eqb_eq in He. split; assumption.
+Qed.
+
+Lemma find_row_none f :
+  find (fun r => String.eqb (z_fmt r) f) int_formats_Z = None -> fmt_type f = None.
+Proof.
+  intros H. destruct (fmt_type f) as [t|] eqn:E; [|reflexivity]. exfalso.
+  unfold fmt_type in E.
+  repeat match type of E with
+  | (if String.eqb f ?s then _ else _) = _ =>
+      destruct (String.eqb_spec f s) as [->|_]; [vm_compute in H; discriminate H|]
+  end.
+  discriminate E.
+Qed.
+
+Lemma fmt_type_none_find f :
+  fmt_type f = None -> find (fun r => String.eqb (z_fmt r) f) int_formats_Z = None.
+Proof.
+  intros E. destruct (find _ int_formats_Z) as [r|] eqn:H; [|reflexivity]. exfalso.
+  apply find_row_some in H. destruct H as [Hin <-].
+  destruct (row_facts_of r Hin) as (lo & hi & nhi & F). rewrite (rf_fmt _ _ _ _ F) in E. discriminate E.
+Qed.
+
+Lemma fmt_type_none_not_u64 f : fmt_type f = None -> String.eqb f "uint64" = false.
+Proof.
+  intros E. destruct (String.eqb_spec f "uint64") as [->|_]; [vm_compute in E; discriminate E|reflexivity].
+Qed.
+
+(* the head of the reversed table decides the `min == 1.` arm *)
+Lemma zfit_one omx : zfit_type (Some 1) omx = Some "::std::num::NonZeroU64".
+Proof. destruct omx; vm_compute; reflexivity. Qed.
+
+(* ---- ranges of the base types ---- *)
+
+Lemma in_ty_range ty n lo hi : ty_range ty = Some (lo, hi) -> (in_ty ty n <-> lo <= n <= hi).
+Proof. intros E. unfold in_ty. rewrite E. tauto. Qed.
+
+Lemma in_base_bounds f n :
+  in_base f n ->
+  (- 2^63 <= n <= 2^63 - 1) \/ (f = Some "uint64" /\ 0 <= n <= 2^64 - 1).
+Proof.
+  unfold in_base, base_ty. destruct f as [s|].
+  - unfold fmt_type.
+    repeat match goal with
+    | |- in_ty (match (if String.eqb s ?c then _ else _) with _ => _ end) _ -> _ =>
+        destruct (String.eqb_spec s c) as [->|_];
+        [ intros H; apply (proj1 (in_ty_range _ n _ _ eq_refl)) in H; try (left; lia); right; split; [reflexivity|lia] |]
+    end.
+    intros H; apply (proj1 (in_ty_range _ n _ _ eq_refl)) in H. left; lia.
+  - intros H; apply (proj1 (in_ty_range _ n _ _ eq_refl)) in H. left; lia.
+Qed.
+
+Lemma base_u64 n : in_base (Some "uint64") n <-> 0 <= n <= 2^64 - 1.
+Proof. apply (in_ty_range "u64" n 0 (2^64-1)). reflexivity. Qed.
+
+Lemma in_i64 n : in_ty "i64" n <-> - 2^63 <= n <= 2^63 - 1.
+Proof. apply (in_ty_range "i64" n). reflexivity. Qed.
+
+Lemma in_u64 n : in_ty "u64" n <-> 0 <= n <= 2^64 - 1.
+Proof. apply (in_ty_range "u64" n). reflexivity. Qed.
+
+Lemma in_nz64 n : in_ty "::std::num::NonZeroU64" n <-> 1 <= n <= 2^64 - 1.
+Proof. apply (in_ty_range "::std::num::NonZeroU64" n). reflexivity. Qed.
+
+(* ---- normalised bounds are implied by admission (add1/sub1 as they are:
+        saturating outside +-2^53 only weakens the normalised bound) ---- *)
+
+Lemma add1_le z : add1 z <= z + 1.
+Proof. unfold add1. destruct (_ && _); lia. Qed.
+Lemma sub1_ge z : z - 1 <= sub1 z.
+Proof. unfold sub1. destruct (_ && _); lia. Qed.
+
+Lemma znorm_min_le b n : admittedZ b n -> ole (znorm_min b) n.
+Proof.
+  intros (Hmin & _ & Hemin & _) m. unfold znorm_min.
+  destruct (zb_min b) as [a|] eqn:Ea, (zb_emin b) as [e|] eqn:Ee; intros H; inversion H; subst; clear H.
+  - specialize (Hmin _ eq_refl). specialize (Hemin _ eq_refl). pose proof (add1_le e). lia.
+  - exact (Hmin _ eq_refl).
+  - specialize (Hemin _ eq_refl). pose proof (add1_le e). lia.
+Qed.
+
+Lemma znorm_max_ge b n : admittedZ b n -> oge (znorm_max b) n.
+Proof.
+  intros (_ & Hmax & _ & Hemax) m. unfold znorm_max.
+  destruct (zb_max b) as [a|] eqn:Ea, (zb_emax b) as [e|] eqn:Ee; intros H; inversion H; subst; clear H.
+  - specialize (Hmax _ eq_refl). specialize (Hemax _ eq_refl). pose proof (sub1_ge e). lia.
+  - exact (Hmax _ eq_refl).
+  - specialize (Hemax _ eq_refl). pose proof (sub1_ge e). lia.
+Qed.
+
+(* normalised minimum 1 excludes 0 *)
+Lemma znorm_min_one_excludes_zero b : znorm_min b = Some 1 -> ~ admittedZ b 0.
+Proof.
+  intros H A. pose proof (znorm_min_le b 0 A 1 H). lia.
+Qed.
+
+(* ---- the part after the format block ---- *)
+
+Definition recognised (fmt : option string) : Prop :=
+  exists f t, fmt = Some f /\ fmt_type f = Some t.
+
+Lemma zgeneral_fits fmt d omn omx ty n :
+  zgeneral fmt d omn omx = Chosen ty ->
+  ole omn n -> oge omx n -> in_base fmt n ->
+  (recognised fmt -> omn <> None /\ omx <> None) ->
+  ~ (fmt = Some "uint64" /\ omn = Some (- 2^63) /\ omx = Some (2^63) /\ n = 2^63) ->
+  in_ty ty n.
+Proof.
+  intros Hc Hmn Hmx Hb Hrec HF6. unfold zgeneral in Hc.
+  destruct (zdefault_in d omn omx); [|discriminate Hc].
+  assert (Hnr : omn = None \/ omx = None -> - 2^63 <= n <= 2^63 - 1).
+  { intros Hn. destruct (in_base_bounds _ _ Hb) as [?|[-> ?]]; [assumption|].
+    exfalso. destruct (Hrec (ex_intro _ "uint64" (ex_intro _ "u64" (conj eq_refl eq_refl)))).
+    destruct Hn; contradiction. }
+  destruct (zfit_type omn omx) as [t|] eqn:Hfit.
+  - inversion Hc; subst t; clear Hc.
+    destruct omn as [mn|].
+    + specialize (Hmn _ eq_refl).
+      destruct (Z.eq_dec mn 1) as [->|Hne].
+      * rewrite zfit_one in Hfit. inversion Hfit; subst ty. apply in_nz64.
+        destruct (in_base_bounds _ _ Hb) as [?|[_ ?]]; lia.
+      * apply Z.eqb_neq in Hne.
+        destruct omx as [mx|]; cbn [zfit_type] in Hfit; apply find_map_some in Hfit;
+          destruct Hfit as (r & Hin & Hr); rewrite Hne in Hr; apply in_rev in Hin;
+          destruct (row_facts_of r Hin) as (lo & hi & nhi & F).
+        -- specialize (Hmx _ eq_refl).
+           destruct ((z_hi r =? mx) && (z_lo r =? mn)) eqn:E; [|discriminate Hr].
+           inversion Hr; subst ty. apply andb_true_iff in E. destruct E as [E1 E2].
+           apply Z.eqb_eq in E1. apply Z.eqb_eq in E2.
+           apply (in_ty_range _ n _ _ (rf_ty _ _ _ _ F)).
+           pose proof (rf_lo _ _ _ _ F) as Hlo.
+           destruct (rf_hi _ _ _ _ F) as [Hhi|[Hhi H63]]; [lia|].
+           destruct (Z_le_gt_dec n hi) as [?|Hgt]; [lia|].
+           exfalso. assert (Hn : n = z_hi r) by lia.
+           destruct (in_base_bounds _ _ Hb) as [?|[Hf ?]]; [lia|].
+           destruct (rf_64 _ _ _ _ F) as [Ha Hb']; [lia|].
+           apply HF6. repeat split; [exact Hf | f_equal; lia | f_equal; lia | lia].
+        -- destruct ((z_lo r =? mn) && (z_hi r >=? 2^63)) eqn:E; [|discriminate Hr].
+           inversion Hr; subst ty. apply andb_true_iff in E. destruct E as [E1 E2].
+           apply Z.eqb_eq in E1. apply Z.geb_le in E2.
+           apply (in_ty_range _ n _ _ (rf_ty _ _ _ _ F)).
+           pose proof (rf_lo _ _ _ _ F) as Hlo. specialize (Hnr (or_intror eq_refl)).
+           destruct (rf_hi _ _ _ _ F) as [Hhi|[Hhi H63]]; lia.
+    + destruct omx as [mx|]; cbn [zfit_type] in Hfit; [|discriminate Hfit].
+      specialize (Hmx _ eq_refl). specialize (Hnr (or_introl eq_refl)).
+      apply find_map_some in Hfit. destruct Hfit as (r & Hin & Hr). apply in_rev in Hin.
+      destruct (row_facts_of r Hin) as (lo & hi & nhi & F).
+      destruct ((z_hi r =? mx) && (z_lo r <=? - 2^63)) eqn:E; [|discriminate Hr].
+      inversion Hr; subst ty. apply andb_true_iff in E. destruct E as [E1 E2].
+      apply Z.eqb_eq in E1. apply Z.leb_le in E2.
+      apply (in_ty_range _ n _ _ (rf_ty _ _ _ _ F)).
+      pose proof (rf_lo _ _ _ _ F) as Hlo.
+      destruct (rf_hi _ _ _ _ F) as [Hhi|[Hhi H63]]; lia.
+  - destruct fmt as [f|].
+    + destruct (String.eqb_spec f "uint64") as [->|Hne].
+      * assert (ty = "u64") as -> by (destruct d as [[v|]|]; [destruct (v <? 0); [discriminate Hc|] | |]; inversion Hc; reflexivity).
+        apply in_u64. apply base_u64. exact Hb.
+      * inversion Hc; subst ty. apply in_i64.
+        destruct (in_base_bounds _ _ Hb) as [?|[Hf ?]]; [assumption|]. inversion Hf. contradiction.
+    + inversion Hc; subst ty. exact Hb.
+Qed.
+
+(* ---- C10, first sentence, on the integer-level model ---- *)
+
+Lemma Known_F6_dec fmt b : Known_F6 fmt b <-> known_F6b fmt b = true.
+Proof.
+  unfold Known_F6, known_F6b. repeat rewrite andb_true_iff.
+  assert (HA : admittedZ b (2^63) <-> admittedZb b (2^63) = true).
+  { unfold admittedZ, admittedZb, ole, oge, olt, ogt. repeat rewrite andb_true_iff.
+    destruct (zb_min b), (zb_max b), (zb_emin b), (zb_emax b);
+      repeat rewrite Z.leb_le; repeat rewrite Z.ltb_lt;
+      (split; [intros (H1 & H2 & H3 & H4); repeat split; auto
+              | intros [[[H1 H2] H3] H4]; repeat split; intros m Hm; inversion Hm; subst; auto; try discriminate]). }
+  assert (HO : forall o z, o = Some z <-> oZ_eqb o z = true).
+  { intros [m|] z; cbn [oZ_eqb]; [rewrite Z.eqb_eq|]; split; intros H; try discriminate; [inversion H|subst]; reflexivity. }
+  rewrite <- HA, <- !HO. destruct fmt as [f|].
+  - rewrite String.eqb_eq. split; [intros (H & ? & ? & ?); inversion H | intros [[[-> ?] ?] ?]]; tauto.
+  - split; [intros (H & _); discriminate H | intros [[[H _] _] _]; discriminate H].
+Qed.
+
+Lemma int_fits_Z fmt b d ty :
+  choose_integer_Z fmt b d = Chosen ty ->
+  ~ Known_F6 fmt b ->
+  forall n, admittedZ b n -> in_base fmt n -> in_ty ty n.
+Proof.
+  intros Hc HF6 n Ha Hb.
+  pose proof (znorm_min_le b n Ha) as Hmn. pose proof (znorm_max_ge b n Ha) as Hmx.
+  unfold choose_integer_Z in Hc.
+  destruct (match fmt with Some f => find (fun r => String.eqb (z_fmt r) f) int_formats_Z | None => None end)
+    as [r|] eqn:Hrow.
+  - destruct fmt as [f|]; [|discriminate Hrow].
+    apply find_row_some in Hrow. destruct Hrow as [Hin Hf].
+    destruct (row_facts_of r Hin) as (lo & hi & nhi & F).
+    assert (Hbase : base_ty (Some f) = z_ty r).
+    { unfold base_ty. rewrite <- Hf, (rf_fmt _ _ _ _ F). reflexivity. }
+    assert (Hbn : lo <= n <= hi).
+    { apply (in_ty_range _ n _ _ (rf_ty _ _ _ _ F)). rewrite <- Hbase. exact Hb. }
+    destruct (negb (zb_mult b) && _ && _) eqn:Hexact.
+    + (* exact path *)
+      destruct (match d with Some (Some v) => _ | _ => false end); [discriminate Hc|].
+      destruct (zis_one (znorm_min b)) eqn:H1; inversion Hc; subst ty.
+      * unfold zis_one in H1. destruct (znorm_min b) as [m|]; [|discriminate H1].
+        apply Z.eqb_eq in H1. subst m. specialize (Hmn _ eq_refl).
+        apply (in_ty_range _ n _ _ (rf_nz _ _ _ _ F)). pose proof (rf_nhi _ _ _ _ F). lia.
+      * rewrite <- Hbase. exact Hb.
+    + (* off the exact path: both sides are bounded, by the format where the schema is silent *)
+      pose proof (rf_lo _ _ _ _ F) as Hlo.
+      refine (zgeneral_fits _ _ _ _ _ _ Hc _ _ Hb _ _).
+      * destruct (znorm_min b); [exact Hmn|]. intros m Hm. inversion Hm. lia.
+      * destruct (znorm_max b); [exact Hmx|]. intros m Hm. inversion Hm.
+        destruct (rf_hi _ _ _ _ F) as [?|[? ?]]; lia.
+      * intros _. destruct (znorm_min b), (znorm_max b); split; discriminate.
+      * intros (Hf64 & Hemn & Hemx & Hn). apply HF6.
+        inversion Hf64; subst f.
+        assert (Hty : z_ty r = "u64").
+        { pose proof (rf_fmt _ _ _ _ F) as Hft. rewrite Hf in Hft. vm_compute in Hft. inversion Hft. reflexivity. }
+        pose proof (rf_ty _ _ _ _ F) as Hr. rewrite Hty in Hr. vm_compute in Hr. inversion Hr; subst lo hi.
+        repeat split; try (exact (proj1 Ha) || exact (proj1 (proj2 Ha)) ||
+                           exact (proj1 (proj2 (proj2 Ha))) || exact (proj2 (proj2 (proj2 Ha)))).
+        -- destruct (znorm_min b); [exact Hemn|]. inversion Hemn. lia.
+        -- destruct (znorm_max b); [exact Hemx|]. inversion Hemx.
+           destruct (rf_hi _ _ _ _ F) as [?|[? ?]]; lia.
+        -- subst n. exact (proj1 Ha).
+        -- subst n. exact (proj1 (proj2 Ha)).
+        -- subst n. exact (proj1 (proj2 (proj2 Ha))).
+        -- subst n. exact (proj2 (proj2 (proj2 Ha))).
+  - refine (zgeneral_fits _ _ _ _ _ _ Hc Hmn Hmx Hb _ _).
+    + intros (f & t & -> & Ht). apply find_row_none in Hrow. rewrite Hrow in Ht. discriminate Ht.
+    + intros (-> & _). vm_compute in Hrow. discriminate Hrow.
+Qed.
